@@ -294,9 +294,11 @@ package dagsync
 //@ func (*Subscriber).watch
 //@   property C08 C15
 //@   requires subOK(s) && s.receiver != nil && s.watchDone != nil && !closed(s.watchDone) && !held(s.handlersMutex) && !held(s.receiver.announceMutex)
+//@   requires !closed(s.inEvents) && (s.syncSem != nil ==> !closed(s.syncSem))
 //@   mayblock
 //@   ghost old0 := zero("*announce.Announce")
 //@   loop 1: invariant subOK(s) && s.receiver != nil && !held(s.handlersMutex) && !closed(s.watchDone) && cancel != nil
+//@   loop 1: invariant !closed(s.inEvents) && (s.syncSem != nil ==> !closed(s.syncSem))
 //@   loop 1: iteration ghost spawned := false
 //@   at call Swap#1: after ghost old0 := result
 //@   loop 1: iteration ensures itercount("go:watch$1") == ite(old0 == nil, 1, 0) && itercount("wg.add:asyncWG") == itercount("go:watch$1")
